@@ -102,14 +102,14 @@ def build(case):
 
 
 def measure(conf, world, objs, npatch, *, cen_perm=None, row_perm=None, wfactor=None, only_counts=False,
-            cats=None):
+            cats=None, cen_n=None):
     import yaw
 
     edges, closed = worlds.BINNINGS[conf["binning"]]
     rmin, rmax = worlds.scale_config(conf["scales"], conf["unit"], conf["binning"])
     if cats is None:
         cats = [worlds.realise(world, o, npatch) for o in objs]
-    cen = worlds.centres(world, npatch)
+    cen = worlds.centres(world, cen_n or npatch)
     if cen_perm is not None:
         cen = cen[cen_perm]
     lib = []
